@@ -56,8 +56,11 @@ class PropertyRun:
     def gen_fn(self, qual: str, label: Optional[str] = None, canary: bool = False) -> List[VC]:
         try:
             fi = self.tree.func(qual)
+            n_contra = len(self.ex.contradictory_contracts)
             vcs = self.ex.verify(qual, label)
             if not canary:
+                for c in self.ex.contradictory_contracts[n_contra:]:
+                    self.engine_faults.append(f"contract contradicts its frame at a call site (postconditions assumed into an infeasible state): {c}")
                 self.functions[qual] = fi.source_sha1()
                 self.vacuity[qual] = bool(self.ex.vacuity)
                 if not self.ex.vacuity:
